@@ -574,6 +574,7 @@ def cli_keep_going(ctx):
 # --------------------------------------------------------------------------- C02
 def chain_case(r):
     c = GT.Case()
+    _r2 = __import__('random').Random(r.getrandbits(32) ^ 0x5eed)     # (later additions draw from a stream of their own)
     D = r.randint(1, 5)
     dirs = ['']
     for i in range(1, D + 1):
@@ -603,7 +604,7 @@ def chain_case(r):
         fmts = [''] * (D + 1)           # plain Manifests: same-size tampering keeps their size too
         mnames = ['Manifest'] * (D + 1)
 
-    def build(contents, seed):
+    def build(contents, seed, ts_levels=()):
         rr = __import__('random').Random(seed)
         t = GT.Tree()
         for d in dirs[1:]:
@@ -618,6 +619,8 @@ def chain_case(r):
                     lines.append(ET.entry_line('DATA', os.path.basename(p), data, hs))
             if i == D:
                 lines.append('DIST dist.tar 3 SHA1 ' + __import__('hashlib').sha1(b'abc').hexdigest())
+            if i in ts_levels:
+                lines.insert(0, 'TIMESTAMP 2020-02-02T02:02:02Z')
             if i < D:
                 child = dirs[i + 1] + '/' + mnames[i + 1]
                 rel = os.path.relpath(child, dirs[i]) if dirs[i] else child
@@ -640,6 +643,9 @@ def chain_case(r):
     t0, m0 = build(contents0, 1)
     t1, m1 = build(contents1, 1)
     k = r.randint(1, D)             # Manifests at levels >= k are the attacker's, those above are untouched
+    if _r2.random() < 0.35:
+        # the attacker's Manifests may say anything - for instance carry a TIMESTAMP line, like a top-level Manifest does
+        t1, m1 = build(contents1, 1, [i for i in range(k, D + 1) if _r2.random() < 0.7])
     for i in range(0, k):
         p = (dirs[i] + '/' if dirs[i] else '') + mnames[i]
         d, name = os.path.split(p)
